@@ -202,6 +202,9 @@ func jsonOf(x interface{}) []byte {
 func (w *World) ParamValue(key string, wellFormed bool) []byte {
 	r := w.R
 	if !wellFormed {
+		if key == "pos/StakeDenom" {
+			return []byte(`{"broken`) // any JSON string is a well-typed denomination; the owner may set it, the harness does not
+		}
 		switch r.Intn(5) {
 		case 0:
 			return []byte(`{"broken`)
